@@ -124,9 +124,7 @@ func (e ottoError) describe(format string, in ...interface{}) string {
 }
 
 func (e ottoError) messageValue() Value {
-	if e.message == "" {
-		return Value{}
-	}
+	// 15.11.2.1: the message property is ToString(message), the empty string included
 	return stringValue(e.message)
 }
 
